@@ -7,6 +7,7 @@ import codec_common as CC
 import gen_asn1 as G
 import lib
 import xcodec as X
+import codec_ber as CB
 
 CODECS = X.BINARY + X.TEXT
 UNKNOWN = ('<unknown>',)
@@ -55,6 +56,92 @@ def extend_module(rng, mod, g):
     for tn, t in m2['types']:
         walk(t, [tn])
     return m2, steps
+
+
+def close_open_choice_contexts(rng, mod):
+    """Known-finding region ber_open_choice_context (known_findings/C07.json): an untagged CHOICE with an open tag set
+    (extension marker, directly or through untagged alternatives) as an alternative of a CHOICE, or as an OPTIONAL /
+    DEFAULT / extension-addition component of a SEQUENCE or SET.  The generator gives such a component a tag."""
+    rt = CB.Resolver(mod)
+
+    def open_tags(t, seen=()):
+        n = 0
+        while t['k'] == 'REF':
+            if t['name'] in seen:
+                return False
+            seen = seen + (t['name'],)
+            t = rt.named(t['name'])
+            if t.get('tag'):
+                return False
+        if t['k'] != 'CHOICE':
+            return False
+        if t['ext'] is not None:
+            return True
+        if CB.automatic(mod, t):
+            return False
+        return any(not m.get('tag') and open_tags(m['t'], seen) for m in CB.members_of(t))
+
+    def fix(t):
+        k = t['k']
+        if k not in ('SEQUENCE', 'SET', 'CHOICE') or CB.automatic(mod, t):
+            return
+        ms = CB.members_of(t)
+        nroot = len(t['root'])
+        used = {m['tag'][1] for m in ms if m.get('tag')}
+        for i, m in enumerate(ms):
+            exposed = k in ('CHOICE', 'SET') or m['opt'] is not None or i >= nroot
+            if exposed and not m.get('tag') and open_tags(m['t']):
+                num = rng.choice([n for n in range(50, 90) if n not in used])
+                used.add(num)
+                m['tag'] = ('', num, rng.choice(['', 'EXPLICIT']))
+    for _, t in mod['types']:
+        CB.walk_types(t, fix)
+    return all(CB.legal_components(mod, rt, x) for _, t in mod['types'] for x in collect(t))
+
+
+def collect(t):
+    out = []
+    CB.walk_types(t, lambda x: out.append(x) if x['k'] in ('SEQUENCE', 'SET', 'CHOICE') else None)
+    return out
+
+
+HIGH_TAGS = [30, 31, 32, 40, 127, 128, 200, 16383, 16384, 2 ** 21 + 5]
+
+
+def tag_new_components(rng, mod1, mod2, codec='ber'):
+    """BER/DER: where automatic tagging does not apply, the components V2 adds carry explicit tags, most of them
+    with numbers that need a multi-octet identifier.  Returns False when the result is not legal ASN.1."""
+    rt1, rt2 = CB.Resolver(mod1), CB.Resolver(mod2)
+    ok = [True]
+
+    def walk(t1, t2):
+        k = t2['k']
+        if k in ('SEQUENCE', 'SET', 'CHOICE'):
+            ms1, ms2 = CB.members_of(t1), CB.members_of(t2)
+            old = {m['name'] for m in ms1}
+            by1 = {m['name']: m for m in ms1}
+            if not CB.automatic(mod1, t1):
+                used = {m['tag'][1] for m in ms2 if m.get('tag')}
+                # known-finding region der_set_addition_tag_order: in a DER SET the new components sort last
+                last = codec == 'der' and k == 'SET'
+                floor = max([0] + [n for m in ms1 for _, n in CB.outer_tags(mod1, rt1, m['t'], m.get('tag'))]) if last else 0
+                for m in ms2:
+                    if m['name'] not in old and (k != 'SEQUENCE' or last or rng.random() < .8):
+                        num = rng.choice([n for n in HIGH_TAGS if n not in used]) + floor
+                        used.add(num)
+                        m['tag'] = ('PRIVATE' if last else rng.choice(['', '', 'APPLICATION', 'PRIVATE']), num,
+                                    rng.choice(['', 'EXPLICIT'] if CB.library_forces_explicit(rt2, m['t'])
+                                               else ['', 'IMPLICIT', 'EXPLICIT']))
+            for m in ms2:
+                if m['name'] in old:
+                    walk(by1[m['name']]['t'], m['t'])
+            if not CB.legal_components(mod2, rt2, t2):
+                ok[0] = False
+        elif k in ('SEQUENCE OF', 'SET OF'):
+            walk(t1['elem'], t2['elem'])
+    for (_, t1), (_, t2) in zip(mod1['types'], mod2['types']):
+        walk(t1, t2)
+    return ok[0]
 
 
 def project(rt1, t1, rt2, t2, v):
@@ -173,13 +260,34 @@ def run(ctx):
     mods = X.models()
     n = 25 if ctx.quick else 300
     for codec in CODECS:
-        base = [codec] if codec in X.BINARY else []
+        base = [codec] if codec in X.BINARY + ['jer'] else []
         opts = X.union_opts(base, mods, extensible=True, xml_safe=(codec == 'xer'))
+        if codec in ('ber', 'der'):
+            opts.tag_modes = ['AUTOMATIC', 'IMPLICIT', 'EXPLICIT']
+            opts.explicit_tags = True
         tried = 0
         while tried < n:
-            mod1, text1, g1 = G.generate(ctx.rng, opts)
+            if codec in ('ber', 'der'):
+                mod1, text1, g1 = CB.generate(ctx.rng, opts)
+                if not close_open_choice_contexts(ctx.rng, mod1):
+                    ctx.count('c07:%s:v1-tags-not-distinct' % codec)
+                    tried += 1
+                    continue
+                text1 = G.render_module(mod1, G.make_resolver(mod1))
+            else:
+                mod1, text1, g1 = G.generate(ctx.rng, opts)
             mod2, steps = extend_module(ctx.rng, mod1, g1)
             tried += 1
+            if codec in ('ber', 'der') and steps and not tag_new_components(ctx.rng, mod1, mod2, codec):
+                ctx.count('c07:%s:v2-tags-not-distinct' % codec)
+                continue
+            if codec in ('ber', 'der') and steps:
+                # regions of the open BER findings recorded for C03/C04 (known_findings/C03.json, C04.json)
+                probs = [p for m in (mod1, mod2) for p in CB.scope_problems(m, codec)
+                         if p.startswith('finding') or p.startswith('IMPLICIT tag on a CHOICE')]
+                if probs:
+                    ctx.count('c07:%s:in-known-finding-region:%s' % (codec, probs[0]))
+                    continue
             if not steps:
                 ctx.count('c07:%s:no-extensible-node' % codec)
                 continue
